@@ -233,14 +233,12 @@ fn parse_integer(string: &str, require_sign: bool) -> Result<Option<Integer>, er
         };
 
         // Re-checked later on convert to smaller int types
-        if integer > IntegerValue::MAX / prefix.radix as IntegerValue {
-            return Err(error::Value::IntegerTooLarge {
+        integer = integer
+            .checked_mul(prefix.radix as IntegerValue)
+            .and_then(|integer| integer.checked_add(digit as IntegerValue))
+            .ok_or(error::Value::IntegerTooLarge {
                 max: i16::MAX as u16,
-            });
-        }
-
-        integer *= prefix.radix as IntegerValue;
-        integer += digit as IntegerValue;
+            })?;
     }
 
     assert!(
